@@ -1,6 +1,7 @@
 import ApolloModel.Model.Proto
 import ApolloModel.Model.SchemaValidation
 import ApolloModel.Model.Implementation
+import ApolloModel.Model.DirectiveApplications
 open Apollo Apollo.Proto Apollo.SchemaValidation Apollo.SchemaInvariants Apollo.Implementation
 namespace Driver
 
@@ -84,6 +85,27 @@ def decodeKindEnv (s : String) : String → Option Kind :=
 
 def strList (s : String) : List String := (s.splitOn ",").filter (· ≠ "")
 
+/-- `r|n` `:` locs `:` `argname.r|o,…` -/
+def decodeDirDef (s : String) : Standalone.DirDef :=
+  match s.splitOn ":" with
+  | [r, locs, args] =>
+    { repeatable := r == "r",
+      locs := (natList locs).map Standalone.Loc.typeSystem,
+      args := (strList args).filterMap fun a => match a.splitOn "." with
+        | [n, f] => n.toNat?.map fun k => ({ name := k, required := f == "r" } : Standalone.ArgDef)
+        | _ => none }
+  | _ => { repeatable := false, locs := [], args := [] }
+
+/-- `dname:arg.v|n,…` -/
+def decodeDirApp (s : String) : Standalone.Dir :=
+  match s.splitOn ":" with
+  | [n, args] =>
+    { name := n.toNat?.getD 1000000,
+      args := (strList args).filterMap fun a => match a.splitOn "." with
+        | [k, v] => k.toNat?.map fun k => ({ name := k, value := if v == "n" then .null else .other [] } : Standalone.Arg)
+        | _ => none }
+  | _ => { name := 1000000, args := [] }
+
 def verdictOf (l : List Nat) : String := if l.isEmpty then "ok" else "err:" ++ showNats l
 
 def c14 (stream : String) (fs : List String) : String :=
@@ -106,6 +128,10 @@ def c14 (stream : String) (fs : List String) : String :=
     | some tf, some ifs =>
       toString (implDiags (decodeSub sub) (fun i => ifs[i]?) tf (List.range ifs.length)).length
     | _, _ => "bad-case"
+  | "c14.dirapps", [defs, loc, apps] =>
+    let ds := if defs == "" then [] else (defs.splitOn "|").map decodeDirDef
+    let as := if apps == "" then [] else (apps.splitOn "|").map decodeDirApp
+    Standalone.verdict (DirApps.schemaDirDiags (fun n => ds[n]?) (.typeSystem (loc.toNat?.getD 0)) as)
   | "c14.kinds", [env, fts, ats, ifts, ms] =>
     let k := decodeKindEnv env
     let c (t : TypeRefs) := toString (typeRefDiags k t).length
